@@ -10,6 +10,9 @@
    For Evaluate methods the receiver fields are parameters of the generated definition; the
    theorem substitutes what the model constructor k_xxx pre-computes and speaks about the closure
    of the object k_xxx returns (the constructors themselves are not translated).
+   `_ctor`    : a (loop-free) constructor: the generated function, which returns None where Go
+                returns nil / an error and otherwise (Evaluate, BoundingBox) of the struct it
+                built, is the model's k_xxx object for object; wrapped SDFs are non-nil
    `_go`      : the generated function equals a model-level term following the Go code exactly
    `_partial` : equality with the hand model holds only under the stated hypothesis, because the
                 hand model deviates from the Go source (see Sdf/GenEq.v header)
@@ -240,6 +243,121 @@ Theorem TRANSL_v3_DivScalar_partial : forall (O : Ops),
     forall (a : V3 O) (k : T O), v3_Vec_DivScalar a k = v3divs a k.
 Proof. exact (@v3_DivScalar_modulo). Qed.
 Print Assumptions TRANSL_v3_DivScalar_partial.
+
+Theorem TRANSL_v3_LTEZero : forall (O : Ops),
+    forall a : V3 O, v3_Vec_LTEZero a = v3_lte_zero a.
+Proof. exact (@v3_LTEZero_eq). Qed.
+Print Assumptions TRANSL_v3_LTEZero.
+
+Theorem TRANSL_NewBox2 : forall (O : Ops),
+    forall center size : V2 O, sdf_NewBox2 center size = newbox2 center size.
+Proof. exact (@NewBox2_eq). Qed.
+Print Assumptions TRANSL_NewBox2.
+
+Theorem TRANSL_Box2_Extend : forall (O : Ops),
+    forall a b : Box2 O, sdf_Box2_Extend a b = box2_extend a b.
+Proof. exact (@Box2_Extend_eq). Qed.
+Print Assumptions TRANSL_Box2_Extend.
+
+Theorem TRANSL_Box2_Include : forall (O : Ops),
+    forall (a : Box2 O) (v : V2 O), sdf_Box2_Include a v = box2_include a v.
+Proof. exact (@Box2_Include_eq). Qed.
+Print Assumptions TRANSL_Box2_Include.
+
+Theorem TRANSL_Box2_Translate : forall (O : Ops),
+    forall (a : Box2 O) (v : V2 O), sdf_Box2_Translate a v = box2_translate a v.
+Proof. exact (@Box2_Translate_eq). Qed.
+Print Assumptions TRANSL_Box2_Translate.
+
+Theorem TRANSL_Box2_Size : forall (O : Ops),
+    forall a : Box2 O, sdf_Box2_Size a = box2_size a.
+Proof. exact (@Box2_Size_eq). Qed.
+Print Assumptions TRANSL_Box2_Size.
+
+Theorem TRANSL_Box2_Center : forall (O : Ops),
+    forall a : Box2 O, sdf_Box2_Center a = box2_center a.
+Proof. exact (@Box2_Center_eq). Qed.
+Print Assumptions TRANSL_Box2_Center.
+
+Theorem TRANSL_Box2_ScaleAboutCenter : forall (O : Ops),
+    forall (a : Box2 O) (k : T O), sdf_Box2_ScaleAboutCenter a k = box2_scale_about_center a k.
+Proof. exact (@Box2_ScaleAboutCenter_eq). Qed.
+Print Assumptions TRANSL_Box2_ScaleAboutCenter.
+
+Theorem TRANSL_Box2_Enlarge : forall (O : Ops),
+    forall (a : Box2 O) (v : V2 O), sdf_Box2_Enlarge a v = box2_enlarge a v.
+Proof. exact (@Box2_Enlarge_eq). Qed.
+Print Assumptions TRANSL_Box2_Enlarge.
+
+Theorem TRANSL_Box2_Contains : forall (O : Ops),
+    forall (a : Box2 O) (v : V2 O), sdf_Box2_Contains a v = box2_contains a v.
+Proof. exact (@Box2_Contains_eq). Qed.
+Print Assumptions TRANSL_Box2_Contains.
+
+Theorem TRANSL_Box2_Vertices : forall (O : Ops),
+    forall a : Box2 O, sdf_Box2_Vertices a = box2_vertices a.
+Proof. exact (@Box2_Vertices_eq). Qed.
+Print Assumptions TRANSL_Box2_Vertices.
+
+Theorem TRANSL_NewBox3 : forall (O : Ops),
+    forall center size : V3 O, sdf_NewBox3 center size = newbox3 center size.
+Proof. exact (@NewBox3_eq). Qed.
+Print Assumptions TRANSL_NewBox3.
+
+Theorem TRANSL_Box3_Extend : forall (O : Ops),
+    forall a b : Box3 O, sdf_Box3_Extend a b = box3_extend a b.
+Proof. exact (@Box3_Extend_eq). Qed.
+Print Assumptions TRANSL_Box3_Extend.
+
+Theorem TRANSL_Box3_Include : forall (O : Ops),
+    forall (a : Box3 O) (v : V3 O), sdf_Box3_Include a v = box3_include a v.
+Proof. exact (@Box3_Include_eq). Qed.
+Print Assumptions TRANSL_Box3_Include.
+
+Theorem TRANSL_Box3_Translate : forall (O : Ops),
+    forall (a : Box3 O) (v : V3 O), sdf_Box3_Translate a v = box3_translate a v.
+Proof. exact (@Box3_Translate_eq). Qed.
+Print Assumptions TRANSL_Box3_Translate.
+
+Theorem TRANSL_Box3_Size : forall (O : Ops),
+    forall a : Box3 O, sdf_Box3_Size a = box3_size a.
+Proof. exact (@Box3_Size_eq). Qed.
+Print Assumptions TRANSL_Box3_Size.
+
+Theorem TRANSL_Box3_Center : forall (O : Ops),
+    forall a : Box3 O, sdf_Box3_Center a = box3_center a.
+Proof. exact (@Box3_Center_eq). Qed.
+Print Assumptions TRANSL_Box3_Center.
+
+Theorem TRANSL_Box3_ScaleAboutCenter : forall (O : Ops),
+    forall (a : Box3 O) (k : T O), sdf_Box3_ScaleAboutCenter a k = box3_scale_about_center a k.
+Proof. exact (@Box3_ScaleAboutCenter_eq). Qed.
+Print Assumptions TRANSL_Box3_ScaleAboutCenter.
+
+Theorem TRANSL_Box3_Enlarge : forall (O : Ops),
+    forall (a : Box3 O) (v : V3 O), sdf_Box3_Enlarge a v = box3_enlarge a v.
+Proof. exact (@Box3_Enlarge_eq). Qed.
+Print Assumptions TRANSL_Box3_Enlarge.
+
+Theorem TRANSL_Box3_Contains : forall (O : Ops),
+    forall (a : Box3 O) (v : V3 O), sdf_Box3_Contains a v = box3_contains a v.
+Proof. exact (@Box3_Contains_eq). Qed.
+Print Assumptions TRANSL_Box3_Contains.
+
+Theorem TRANSL_Box3_Vertices : forall (O : Ops),
+    forall a : Box3 O, sdf_Box3_Vertices a = box3_vertices a.
+Proof. exact (@Box3_Vertices_eq). Qed.
+Print Assumptions TRANSL_Box3_Vertices.
+
+Theorem TRANSL_M33_MulBox : forall (O : Ops),
+    forall (a : list T O) (box : Box2 O), sdf_M33_MulBox a box = m33_mulbox a box.
+Proof. exact (@M33_MulBox_eq). Qed.
+Print Assumptions TRANSL_M33_MulBox.
+
+Theorem TRANSL_M44_MulBox : forall (O : Ops),
+    forall (a : list T O) (box : Box3 O), sdf_M44_MulBox a box = m44_mulbox a box.
+Proof. exact (@M44_MulBox_eq). Qed.
+Print Assumptions TRANSL_M44_MulBox.
 
 Theorem TRANSL_Clamp : forall (O : Ops),
     forall x a b : T O, sdf_Clamp x a b = clamp x a b.
@@ -523,6 +641,165 @@ Theorem TRANSL_Shell3 : forall (O : Ops),
     sdf_ShellSDF3_Evaluate (ev3 s) (k05 * thickness) p = ev3 o p.
 Proof. exact (@Shell3_eq). Qed.
 Print Assumptions TRANSL_Shell3.
+
+Theorem TRANSL_Circle2D_ctor : forall (O : Ops),
+    forall radius : T O, option_map obj2_of (sdf_Circle2D radius) = k_circle radius.
+Proof. exact (@Circle2D_ctor). Qed.
+Print Assumptions TRANSL_Circle2D_ctor.
+
+Theorem TRANSL_Box2D_ctor : forall (O : Ops),
+    forall (size : V2 O) (round : T O), option_map obj2_of (sdf_Box2D size round) = k_box2 size round.
+Proof. exact (@Box2D_ctor). Qed.
+Print Assumptions TRANSL_Box2D_ctor.
+
+Theorem TRANSL_Line2D_ctor : forall (O : Ops),
+    forall l round : T O, option_map obj2_of (sdf_Line2D l round) = k_line2 l round.
+Proof. exact (@Line2D_ctor). Qed.
+Print Assumptions TRANSL_Line2D_ctor.
+
+Theorem TRANSL_Offset2D_ctor : forall (O : Ops),
+    forall (s : Obj2 O) (offset : T O),
+    option_map obj2_of (sdf_Offset2D (ev2 s) (bb2 s) offset) = k_offset2 s offset.
+Proof. exact (@Offset2D_ctor). Qed.
+Print Assumptions TRANSL_Offset2D_ctor.
+
+Theorem TRANSL_Intersect2D_ctor : forall (O : Ops),
+    forall s0 s1 : Obj2 O,
+    option_map obj2_of (sdf_Intersect2D (ev2 s0) (bb2 s0) (ev2 s1) (bb2 s1)) = k_intersect2 MaxDef s0 s1.
+Proof. exact (@Intersect2D_ctor). Qed.
+Print Assumptions TRANSL_Intersect2D_ctor.
+
+Theorem TRANSL_Difference2D_ctor : forall (O : Ops),
+    forall s0 s1 : Obj2 O,
+    option_map obj2_of (sdf_Difference2D (ev2 s0) (bb2 s0) (ev2 s1) (bb2 s1)) = k_difference2 MaxDef s0 s1.
+Proof. exact (@Difference2D_ctor). Qed.
+Print Assumptions TRANSL_Difference2D_ctor.
+
+Theorem TRANSL_Cut2D_ctor : forall (O : Ops),
+    forall (s : Obj2 O) (a v : V2 O),
+    option_map obj2_of (sdf_Cut2D (ev2 s) (bb2 s) a v) = k_cut2 s a v.
+Proof. exact (@Cut2D_ctor). Qed.
+Print Assumptions TRANSL_Cut2D_ctor.
+
+Theorem TRANSL_Transform2D_ctor : forall (O : Ops),
+    forall (s : Obj2 O) (m : list T O),
+    option_map obj2_of (sdf_Transform2D (ev2 s) (bb2 s) m) = k_transform2 s m.
+Proof. exact (@Transform2D_ctor). Qed.
+Print Assumptions TRANSL_Transform2D_ctor.
+
+Theorem TRANSL_ScaleUniform2D_ctor : forall (O : Ops),
+    forall (s : Obj2 O) (k : T O),
+    option_map obj2_of (sdf_ScaleUniform2D (ev2 s) (bb2 s) k) = k_scaleuniform2 s k.
+Proof. exact (@ScaleUniform2D_ctor). Qed.
+Print Assumptions TRANSL_ScaleUniform2D_ctor.
+
+Theorem TRANSL_Elongate2D_ctor : forall (O : Ops),
+    forall (s : Obj2 O) (h : V2 O),
+    option_map obj2_of (sdf_Elongate2D (ev2 s) (bb2 s) h) = k_elongate2 s h.
+Proof. exact (@Elongate2D_ctor). Qed.
+Print Assumptions TRANSL_Elongate2D_ctor.
+
+Theorem TRANSL_Sphere3D_ctor : forall (O : Ops),
+    forall radius : T O, option_map obj3_of (sdf_Sphere3D radius) = k_sphere radius.
+Proof. exact (@Sphere3D_ctor). Qed.
+Print Assumptions TRANSL_Sphere3D_ctor.
+
+Theorem TRANSL_Box3D_ctor : forall (O : Ops),
+    forall (size : V3 O) (round : T O), option_map obj3_of (sdf_Box3D size round) = k_box3 size round.
+Proof. exact (@Box3D_ctor). Qed.
+Print Assumptions TRANSL_Box3D_ctor.
+
+Theorem TRANSL_Cylinder3D_ctor : forall (O : Ops),
+    forall height radius round : T O,
+    option_map obj3_of (sdf_Cylinder3D height radius round) = k_cylinder height radius round.
+Proof. exact (@Cylinder3D_ctor). Qed.
+Print Assumptions TRANSL_Cylinder3D_ctor.
+
+Theorem TRANSL_Capsule3D_ctor : forall (O : Ops),
+    forall height radius : T O,
+    option_map obj3_of (sdf_Capsule3D height radius) = k_cylinder height radius radius.
+Proof. exact (@Capsule3D_ctor). Qed.
+Print Assumptions TRANSL_Capsule3D_ctor.
+
+Theorem TRANSL_Cone3D_ctor : forall (O : Ops),
+    forall height r0 r1 round : T O,
+    option_map obj3_of (sdf_Cone3D height r0 r1 round) = k_cone height r0 r1 round.
+Proof. exact (@Cone3D_ctor). Qed.
+Print Assumptions TRANSL_Cone3D_ctor.
+
+Theorem TRANSL_Extrude3D_ctor : forall (O : Ops),
+    forall (s : Obj2 O) (height : T O),
+    option_map obj3_of (sdf_Extrude3D (ev2 s) (bb2 s) height) = k_extrude s height.
+Proof. exact (@Extrude3D_ctor). Qed.
+Print Assumptions TRANSL_Extrude3D_ctor.
+
+Theorem TRANSL_ExtrudeRounded3D_ctor : forall (O : Ops),
+    forall (s : Obj2 O) (height round : T O),
+    option_map obj3_of (sdf_ExtrudeRounded3D (ev2 s) (bb2 s) height round) = k_extruderounded s height round.
+Proof. exact (@ExtrudeRounded3D_ctor). Qed.
+Print Assumptions TRANSL_ExtrudeRounded3D_ctor.
+
+Theorem TRANSL_Transform3D_ctor : forall (O : Ops),
+    forall (s : Obj3 O) (m : list T O),
+    option_map obj3_of (sdf_Transform3D (ev3 s) (bb3 s) m) = k_transform3 s m.
+Proof. exact (@Transform3D_ctor). Qed.
+Print Assumptions TRANSL_Transform3D_ctor.
+
+Theorem TRANSL_ScaleUniform3D_ctor : forall (O : Ops),
+    forall (s : Obj3 O) (k : T O),
+    option_map obj3_of (sdf_ScaleUniform3D (ev3 s) (bb3 s) k) = k_scaleuniform3 s k.
+Proof. exact (@ScaleUniform3D_ctor). Qed.
+Print Assumptions TRANSL_ScaleUniform3D_ctor.
+
+Theorem TRANSL_Difference3D_ctor : forall (O : Ops),
+    forall s0 s1 : Obj3 O,
+    option_map obj3_of (sdf_Difference3D (ev3 s0) (bb3 s0) (ev3 s1) (bb3 s1)) = k_difference3 MaxDef s0 s1.
+Proof. exact (@Difference3D_ctor). Qed.
+Print Assumptions TRANSL_Difference3D_ctor.
+
+Theorem TRANSL_Intersect3D_ctor : forall (O : Ops),
+    forall s0 s1 : Obj3 O,
+    option_map obj3_of (sdf_Intersect3D (ev3 s0) (bb3 s0) (ev3 s1) (bb3 s1)) = k_intersect3 MaxDef s0 s1.
+Proof. exact (@Intersect3D_ctor). Qed.
+Print Assumptions TRANSL_Intersect3D_ctor.
+
+Theorem TRANSL_Cut3D_ctor : forall (O : Ops),
+    forall (s : Obj3 O) (a n : V3 O),
+    option_map obj3_of (sdf_Cut3D (ev3 s) (bb3 s) a n) = k_cut3 s a n.
+Proof. exact (@Cut3D_ctor). Qed.
+Print Assumptions TRANSL_Cut3D_ctor.
+
+Theorem TRANSL_Elongate3D_ctor : forall (O : Ops),
+    forall (s : Obj3 O) (h : V3 O),
+    option_map obj3_of (sdf_Elongate3D (ev3 s) (bb3 s) h) = k_elongate3 s h.
+Proof. exact (@Elongate3D_ctor). Qed.
+Print Assumptions TRANSL_Elongate3D_ctor.
+
+Theorem TRANSL_Offset3D_ctor : forall (O : Ops),
+    forall (s : Obj3 O) (offset : T O),
+    option_map obj3_of (sdf_Offset3D (ev3 s) (bb3 s) offset) = k_offset3 s offset.
+Proof. exact (@Offset3D_ctor). Qed.
+Print Assumptions TRANSL_Offset3D_ctor.
+
+Theorem TRANSL_Shell3D_ctor : forall (O : Ops),
+    forall (s : Obj3 O) (thickness : T O),
+    option_map obj3_of (sdf_Shell3D (ev3 s) (bb3 s) thickness) = k_shell3 s thickness.
+Proof. exact (@Shell3D_ctor). Qed.
+Print Assumptions TRANSL_Shell3D_ctor.
+
+Theorem TRANSL_ScaleExtrude3D_ctor_partial : forall (O : Ops),
+    (forall x k : T O, x / k = x * (o1 O / k)) ->
+    forall (s : Obj2 O) (height : T O) (scale : V2 O),
+    option_map obj3_of (sdf_ScaleExtrude3D (ev2 s) (bb2 s) height scale) = k_scaleextrude s height scale.
+Proof. exact (@ScaleExtrude3D_ctor_modulo). Qed.
+Print Assumptions TRANSL_ScaleExtrude3D_ctor_partial.
+
+Theorem TRANSL_Loft3D_ctor_partial : forall (O : Ops),
+    forall (s0 s1 : Obj2 O) (height round : T O),
+    ((height / two) - round =? o0 O) = false ->
+    option_map obj3_of (sdf_Loft3D (ev2 s0) (bb2 s0) (ev2 s1) (bb2 s1) height round) = k_loft s0 s1 height round.
+Proof. exact (@Loft3D_ctor_modulo). Qed.
+Print Assumptions TRANSL_Loft3D_ctor_partial.
 
 (* float64 witnesses of the two deviations of the hand model (Sdf/GenEq.v: dev_a = (3,3),
    dev_k = 10; dev_s0, dev_s1 = constant fields 1 and 3, height 2, round 1, p = origin) *)
